@@ -737,7 +737,8 @@ func c15Validators(w *World, r *Report) {
 	for _, spec := range []struct {
 		key      string
 		needLen0 bool
-	}{{"stanza.isUsernameValid", false}, {"stanza.isDomainValid", true}} {
+		required string // the characters the part may not contain (RFC 6122 A.5 names these for the local part, with '&', which this library has never refused: noted, not claimed)
+	}{{"stanza.isUsernameValid", false, "@/'\":<>"}, {"stanza.isDomainValid", true, "@/"}} {
 		fn := w.Func(spec.key)
 		p := fn.Params[0]
 		bad := ""
@@ -828,7 +829,17 @@ func c15Validators(w *World, r *Report) {
 			}
 			return false
 		}
-		r.Check(bad == "" && okMember && has('@') && has('/'), "R3", spec.key+"#table", w.pos(fn.Pos()), fmt.Sprintf("the validator does not reject every string containing a rune of a table that includes '@' and '/' (%s; table %q, membership ⇒ rejected: %v)", bad, string(table), okMember), fmt.Sprintf("valid ⇔ no rune is whitespace or in %q", string(table)))
+		missing := ""
+		for _, q := range spec.required {
+			if !has(q) {
+				missing += string(q)
+			}
+		}
+		if missing != "" && bad == "" && okMember && has('@') && has('/') {
+			r.Fail("R3", spec.key+"#table", w.pos(fn.Pos()), fmt.Sprintf("the forbidden-character table %q no longer contains %q: a part containing it is accepted", string(table), missing))
+		} else {
+			r.Check(bad == "" && okMember && has('@') && has('/'), "R3", spec.key+"#table", w.pos(fn.Pos()), fmt.Sprintf("the validator does not reject every string containing a rune of a table that includes '@' and '/' (%s; table %q, membership ⇒ rejected: %v)", bad, string(table), okMember), fmt.Sprintf("valid ⇔ no rune is whitespace or in %q", string(table)))
+		}
 		r.Check(bad == "" && okSpace, "R3", spec.key+"#space", w.pos(fn.Pos()), "whitespace is not rejected: "+bad, "unicode.IsSpace(c) ⇒ rejected")
 		if spec.needLen0 {
 			r.Check(nEmpty > 0 && emptyOK, "R3", spec.key+"#empty", w.pos(fn.Pos()), "an empty domain is not rejected", "false for the empty string")
